@@ -563,6 +563,8 @@ pub struct WriteRun {
 struct WCtx {
     viol: Vec<Violation>,
     step: usize,
+    /// room the (possibly temporary) target had before the operation that ended the run by panicking
+    room_before_panic: Option<usize>,
     panics: u64,
     adapters: bool,
     probes: std::collections::BTreeMap<&'static str, u64>,
@@ -671,10 +673,27 @@ fn do_wop<B: BufMut>(cx: &mut WCtx, b: &mut B, tm: &mut Tm, written: &mut Vec<u8
                 if k == 0 {
                     panic!("manual: chunk_mut() empty with bytes left to write");
                 }
-                if k == 1 {
-                    c.write_byte(0, bytes[p]);
-                } else {
-                    c[..k].copy_from_slice(&bytes[p..p + k]);
+                // every Index/IndexMut form of UninitSlice, write_byte and as_mut_ptr
+                match (p + k) % 6 {
+                    0 if k >= 1 => {
+                        for i in 0..k {
+                            c.write_byte(i, bytes[p + i]);
+                        }
+                    }
+                    1 => c[..k].copy_from_slice(&bytes[p..p + k]),
+                    2 => c[0..k].copy_from_slice(&bytes[p..p + k]),
+                    3 if k >= 1 => c[..=k - 1].copy_from_slice(&bytes[p..p + k]),
+                    4 if k >= 2 => {
+                        c[0..=0].copy_from_slice(&bytes[p..p + 1]);
+                        c[1..][..k - 1].copy_from_slice(&bytes[p + 1..p + k]);
+                    }
+                    5 => unsafe {
+                        let full = c.len();
+                        let whole = &mut c[..];
+                        assert_eq!(whole.len(), full);
+                        std::ptr::copy_nonoverlapping(bytes[p..].as_ptr(), whole.as_mut_ptr(), k);
+                    },
+                    _ => c[..k].copy_from_slice(&bytes[p..p + k]),
                 }
                 unsafe { b.advance_mut(k) };
                 p += k;
@@ -703,6 +722,7 @@ fn do_wop<B: BufMut>(cx: &mut WCtx, b: &mut B, tm: &mut Tm, written: &mut Vec<u8
         }
         Err(p) => {
             cx.panics += 1;
+            cx.room_before_panic = Some(if must_panic_args { 0 } else { rem });
             if fits && !must_panic_args && !(name == "manual") {
                 cx.law("write-panicked", format!("{}: {} of {} bytes panicked ({}) although {} fit", what, name, n, rt::panic_message(&*p), rem));
             } else if name == "manual" && fits {
@@ -732,7 +752,7 @@ pub fn run(plan: &J, given: Option<&[J]>, rng: &mut Rng, max_ops: usize, journal
     let mut frames = Frames { frames: Vec::new(), caps: Vec::new() };
     collect_frames(plan, &mut frames);
     let mut tm = Tm::from_plan(plan);
-    let mut cx = WCtx { viol: Vec::new(), step: 0, panics: 0, adapters: has_wadapter(plan), probes: Default::default() };
+    let mut cx = WCtx { viol: Vec::new(), step: 0, room_before_panic: None, panics: 0, adapters: has_wadapter(plan), probes: Default::default() };
     let mut written: Vec<u8> = Vec::new();
     let mut puts: Vec<(String, u128, usize, usize)> = Vec::new();
     let mut ops_done: Vec<J> = Vec::new();
@@ -922,8 +942,60 @@ pub fn run(plan: &J, given: Option<&[J]>, rng: &mut Rng, max_ops: usize, journal
             for p in d.problems {
                 cx.v(&["C12"], "inner-target-not-advanced-exactly", p);
             }
+        } else if cx.viol.is_empty() && ended && cx.room_before_panic.is_some() {
+            // The run ended with a (legitimate) panic: the state of the adapters is
+            // unspecified, but "no byte outside the target's writable region is ever
+            // modified" still holds: whatever was written before the panic must fit
+            // into the room the target had.
+            let mut d = WDeep { problems: Vec::new(), adapters_checked: 0 };
+            let r = catch_unwind(AssertUnwindSafe(|| {
+                let mut lv = Vec::new();
+                wfinish(node, &tm, &mut lv, &mut d, "root");
+                lv
+            }));
+            if let Ok(lv) = r {
+                leaves = lv;
+            }
         } else {
             drop(node);
+        }
+    }
+    if cx.viol.is_empty() && ended && cx.room_before_panic.is_some() && !leaves.is_empty() {
+        let room = cx.room_before_panic.unwrap();
+        let mut fills = Vec::new();
+        tm.leaf_fill(&mut fills);
+        if fills.len() == leaves.len() {
+            let plans = leaf_plans(plan);
+            let mut fi = 0usize;
+            let mut extra_total = 0usize;
+            for (li, leaf) in leaves.iter().enumerate() {
+                let now = match leaf {
+                    LeafOut::FixedRemaining(left) => {
+                        let cap = frames.caps[fi];
+                        let fr = &frames.frames[fi];
+                        fi += 1;
+                        let filled = cap - (*left).min(cap);
+                        // bytes behind the cursor count too: they were modified
+                        let payload: Vec<u8> = fr[GUARD..GUARD + cap].iter().map(|x| unsafe { x.assume_init() }).collect();
+                        let touched = payload.iter().rposition(|&x| x != FILL).map(|p| p + 1).unwrap_or(0);
+                        filled.max(touched.min(cap))
+                    }
+                    LeafOut::Grow(v) => v.len().max(plans[li].us("init")),
+                    LeafOut::Seg(sg) => {
+                        let p = sg.payload();
+                        let touched = p.iter().rposition(|&x| x != FILL).map(|q| q + 1).unwrap_or(0);
+                        sg.filled().max(touched)
+                    }
+                };
+                extra_total += now.saturating_sub(fills[li]);
+            }
+            if extra_total > room {
+                cx.law(
+                    "modified-beyond-writable-region",
+                    format!("the write that did not fit panicked, but {} byte(s) were written although the target only had room for {}", extra_total, room),
+                );
+            }
+            *cx.probes.entry("post_panic_inspections").or_insert(0) += 1;
         }
     }
     // guard bytes of every frame, always
